@@ -740,6 +740,17 @@ Plan gen_plan(uint64_t runseed) {
         if (faults && r.below(2)) k.fault = 1 + r.below(r.below(3) ? 4 : 40);
         p.sinks.push_back(k);
     }
+    // a rare class of its own (one call in 64, drawn from a generator of its own): a format string of several hundred bytes whose output is a handful -
+    // "{&1}" of an empty text fifty-five to a hundred and thirty-five times, a literal of at most two characters, a small integer
+    { Rng lr; lr.seed(simrt::mix(runseed, 0x6c6f6e67, 1));
+      if (lr.below(64) == 0) {
+          p.segs.clear(); p.args.clear();
+          ArgSpec e; e.kind = AK_CSTR; e.v = lr.below(1 << 16); e.n = 0; p.args.push_back(e);
+          ArgSpec i; i.kind = AK_INT; i.v = lr.below(1 << 16); i.n = 0; p.args.push_back(i);
+          for (unsigned k = 55 + lr.below(80); k-- > 0;) { Seg g; g.type = 1; g.index = 1; p.segs.push_back(g); }
+          Seg l; l.type = 0; l.src = lr.below(1000); l.n = lr.below(3); p.segs.push_back(l);
+          Seg g; g.type = 1; g.index = 2; p.segs.push_back(g);
+      } }
     // the surroundings of the calls (a generator of its own: the plans of earlier versions are unchanged): one sink in eight is used from a destructor during unwinding
     { Rng u; u.seed(simrt::mix(runseed, 0x756e77, 1)); for (SinkCfg &k : p.sinks) if (u.below(8) == 0) k.ctx = 1; }
     return p;
